@@ -724,7 +724,6 @@ func (i *Interp) symFloatBinop(op token.Token, k types.BasicKind, x, y value) va
 	if r, ok := i.cmpFixedWithConst(op, x, y); ok {
 		return r
 	}
-	a, b := i.fpTerm(x), i.fpTerm(y)
 	if i.cfg != nil && i.cfg.FloatUF {
 		switch op {
 		case token.ADD, token.SUB, token.MUL, token.QUO:
@@ -732,12 +731,65 @@ func (i *Interp) symFloatBinop(op token.Token, k types.BasicKind, x, y value) va
 			if k == types.Float32 {
 				name += "32"
 			}
-			if (op == token.ADD || op == token.MUL) && a.ID > b.ID {
-				a, b = b, a // commutativity
+			// both operands exact integers (float64(int) conversions): the function takes the integers
+			// themselves, no Int->FP conversion term (to_fp of to_real stalls z3)
+			if xi, yi := floatAsInt(x), floatAsInt(y); xi != nil && yi != nil && xi.sc == 0 && yi.sc == 0 {
+				if xi.t == nil {
+					xi.t = c.IntConst(xi.lo)
+				}
+				if yi.t == nil {
+					yi.t = c.IntConst(yi.lo)
+				}
+				uname := name + "I"
+				if op == token.QUO && k == types.Float64 && intervalWithin(xi, 24) && intervalWithin(yi, 24) {
+					// both below 2^24: int(a/b) can be computed exactly from a and b (see symConv)
+					uname = name + "Is"
+				}
+				r := c.UF(uname, i.floatSort(k), xi.t, yi.t)
+				// IEEE: an operation on finite numbers is NaN only for 0/0
+				nan := c.FPPred("fp.isNaN", r)
+				if op == token.QUO {
+					i.assume(c.Or(c.And(c.Eq(xi.t, c.IntConst64(0)), c.Eq(yi.t, c.IntConst64(0))), c.Not(nan)))
+				} else {
+					i.assume(c.Not(nan))
+				}
+				return sym{t: r, k: k}
 			}
-			return sym{t: c.UF(name, a.Sort, a, b), k: k}
+			// an exact-integer / fixed-point operand enters the function as its integer (the scale goes
+			// into the function name): no Int->FP conversion term
+			argOf := func(v value) (*smt.Term, string) {
+				if fi := floatAsInt(v); fi != nil && isSym(v) {
+					return fi.t, fmt.Sprintf("_i%d", fi.sc)
+				}
+				return i.fpTerm(v), "_f"
+			}
+			a, sa := argOf(x)
+			b, sb := argOf(y)
+			if (op == token.ADD || op == token.MUL) && (sa > sb || (sa == sb && a.ID > b.ID)) {
+				a, b, sa, sb = b, a, sb, sa // commutativity
+			}
+			if sa != "_f" || sb != "_f" {
+				name += sa + sb
+			}
+			r := c.UF(name, i.floatSort(k), a, b)
+			// a NaN result needs a NaN operand, or inf-inf, 0*inf, 0/0, inf/inf: with one concrete
+			// finite non-zero operand of * or / only a NaN other operand can produce it (inf*c = inf)
+			if op == token.MUL || op == token.QUO {
+				for _, pr := range [][2]value{{x, y}, {y, x}} {
+					if cv, ok := pr[1].(float64); ok && cv != 0 && !math.IsInf(cv, 0) && !math.IsNaN(cv) {
+						if fi := floatAsInt(pr[0]); fi != nil {
+							i.assume(c.Not(c.FPPred("fp.isNaN", r))) // finite * finite
+						} else {
+							o := i.fpTerm(pr[0])
+							i.assume(c.Or(c.FPPred("fp.isNaN", o), c.Not(c.FPPred("fp.isNaN", r))))
+						}
+					}
+				}
+			}
+			return sym{t: r, k: k}
 		}
 	}
+	a, b := i.fpTerm(x), i.fpTerm(y)
 	switch op {
 	case token.ADD:
 		return sym{t: c.FPArith("fp.add", a, b), k: k}
@@ -869,6 +921,15 @@ func (i *Interp) cmpFixedWithConst(op token.Token, x, y value) (value, bool) {
 	return nil, false
 }
 
+func intervalWithin(s *sym, bits uint) bool {
+	lim := pow2(bits)
+	return new(big.Int).Abs(s.lo).Cmp(lim) <= 0 && new(big.Int).Abs(s.hi).Cmp(lim) <= 0
+}
+
+func (i *Interp) nondetOfKind(k types.BasicKind) value {
+	return sym{t: i.freshVar("unspec", smt.BV(kindWidth(k))), k: k}
+}
+
 func mkFloatOfKind(k types.BasicKind, f float64) value {
 	if k == types.Float32 {
 		return float32(f)
@@ -989,6 +1050,22 @@ func (i *Interp) symConv(dst types.BasicKind, x sym) value {
 		}
 		return sym{t: c.FPFromSBV(x.t, i.floatSort(dst), kindSigned(src)), k: dst}
 	case kindIsFloat(src) && kindIsInt(dst):
+		if x.t.Op == "uf:fdivIs" {
+			// int(float64(a)/float64(b)) for |a|,|b| <= 2^24: the real quotient is an integer or at
+			// least 1/|b| >= 2^-24 away from one, the correctly rounded double is within 2^-29 of it,
+			// so truncation gives trunc(a/b). b == 0 (Inf/NaN -> int) is unspecified in Go: fresh value.
+			a, b := x.t.Args[0], x.t.Args[1]
+			zero := c.IntConst64(0)
+			abs := func(t *smt.Term) *smt.Term { return c.Ite(c.ILt(t, zero), c.INeg(t), t) }
+			q := c.IDiv(abs(a), abs(b))
+			neg := c.Xor(c.ILt(a, zero), c.ILt(b, zero))
+			q = c.Ite(neg, c.INeg(q), q)
+			lim := pow2(24)
+			if !i.decide(c.Not(c.Eq(b, zero))) {
+				return i.nondetOfKind(dst)
+			}
+			return i.mkInt(q, dst, new(big.Int).Neg(lim), lim)
+		}
 		if x.t.Sort.K == smt.KInt {
 			if x.sc > 0 {
 				r := i.fixRound(x, "RTZ")
